@@ -88,6 +88,8 @@ def enc(a):
         return [toz(a)], 'r'
     if isinstance(a, bool) or a is None or isinstance(a, str):
         return [], repr(a)
+    if type(a).__name__ in ('DECAngle', 'HPAngle', 'GONAngle', 'DMSAngle', 'DDMAngle'):
+        return [toz(a.dec())], type(a).__name__
     if isinstance(a, (int, float)):
         return [toz(a)], 'r'
     if isinstance(a, Tok):
